@@ -312,6 +312,9 @@ func (gridSim) Run(e *Env, ci interface{}) {
 	}
 	cell := fmt.Sprintf("%s archive=%s window=%s env=%s text-out=%s remote=%v via-parse=%v layout=%s", c.Kind, c.ArchSel, c.Window, fault, cm.TextOut, c.Remote, c.ViaParse, c.Layout)
 	e.State(hashStr(fmt.Sprintf("%s|%s|%s|%s|%s|%v", c.Kind, c.ArchSel, c.Window, fault, cm.TextOut, c.Remote)))
+	if res.aborted {
+		return
+	}
 	if len(res.panics) > 0 {
 		e.Violate("C16.no-panic", "%s: panic: %s", cell, res.panics[0])
 		return
